@@ -128,7 +128,9 @@ Slot(n, m) == [N |-> n, M |-> m]
 SlotChoices == {<<FALSE, <<>>>>, <<TRUE, <<Slot(Null, Null)>>>>, <<TRUE, <<Slot(Num(-284, 0), Null)>>>>,
                 <<TRUE, <<Slot(Null, Num(8, 0))>>>>, <<TRUE, <<Slot(Num(-284, 0), Num(8, 0))>>>>,
                 <<TRUE, <<Slot(Num(-284, 0), Num(4, 0)), Slot(Num(12, 0), Num(4, 0))>>>>,
-                <<TRUE, <<Slot(Num(-284, 0), Num(4, 0)), Slot(Null, Null)>>>>}
+                <<TRUE, <<Slot(Num(-284, 0), Num(4, 0)), Slot(Null, Null)>>>>,
+                \* two slots that both leave N free: OutsideYangModel
+                <<TRUE, <<Slot(Null, Num(4, 0)), Slot(Null, Num(4, 0))>>>>, <<TRUE, <<Slot(Null, Null), Slot(Null, Num(8, 0))>>>>}
 Req(id, inc, sl, mx, pw, md, bw, sp) ==
   [id |-> id, include |-> inc, hasslots |-> sl[1], slots |-> sl[2], max_nb |-> mx, power |-> pw, mode |-> md,
    bandwidth |-> bw, spacing |-> sp]
@@ -159,7 +161,9 @@ SimDocs == {[kind |-> "simparams", form |-> "legacy", extra |-> <<>>, flag |-> f
                fl \in BOOLEAN, me \in {"ggn_spectrally_separated", "gn_model_analytic"},
                rs \in {Num(1, -4), Num(12345678, 3)},
                \* explicit channel list and channel count are the two cases of a YANG choice
-               cn \in {<<<<>>, Absent>>, <<<<Num(1, 0), Num(18, 0), Num(37, 0)>>, Absent>>, <<<<>>, Num(5, 0)>>}}
+               \* (the fourth choice gives both: OutsideYangModel)
+               cn \in {<<<<>>, Absent>>, <<<<Num(1, 0), Num(18, 0), Num(37, 0)>>, Absent>>, <<<<>>, Num(5, 0)>>,
+                       <<<<Num(1, 0), Num(18, 0), Num(37, 0)>>, Num(5, 0)>>}}
 
 Docs == TopoDocs \cup EqptDocs \cup ServDocs \cup SpecDocs \cup SimDocs
 
